@@ -190,3 +190,9 @@ def trace_provider_mdib(mdib, sched: Scheduler):
     del mdib.__dict__['mdib_version']
     mdib.__class__ = traced
     return mdib
+
+
+def trace_provider_txid(provider, sched: Scheduler):
+    """The lock that guards the provider's transaction-id counter becomes a traced lock."""
+    provider._transaction_id_lock = TracedLock(provider._transaction_id_lock, 'txid', sched)   # noqa: SLF001
+    return provider
